@@ -260,6 +260,7 @@ proof fn lemma_c10_own_valid(enc: Seq<u8>)
 }
 //@include inc/attrs_sum.rs
 //@include inc/post_n.rs
+//@include inc/attrs_registry.rs
 proof fn vx_sentinel() ensures false {}
 } // verus!
 fn main() {}
